@@ -29,7 +29,7 @@ type pairLog struct {
 	serverSock sio.ServerSocket
 }
 
-func r3Scenario(name string, cause func(srv *sio.Server, mgr *sio.Manager, sock sio.ClientSocket, link *vrig.Inproc, l *pairLog), srvReasons, cliReasons []string, connectionOver bool, bound int) *vx.Scenario {
+func r3Scenario(name string, cause func(srv *sio.Server, mgr *sio.Manager, sock sio.ClientSocket, link *vrig.Inproc, l *pairLog), srvReasons, cliReasons []string, connectionOver bool, bound int, before ...func(srv *sio.Server, mgr *sio.Manager, l *pairLog)) *vx.Scenario {
 	sc := &vx.Scenario{Name: "sio-sio/" + name, Bound: bound, Horizon: 3 * time.Minute}
 	sc.Body = func(e *vsched.Exec) func() vx.Result {
 		vsched.SetExploring(false)
@@ -50,6 +50,9 @@ func r3Scenario(name string, cause func(srv *sio.Server, mgr *sio.Manager, sock 
 		vsched.Await(func() bool { return l.srvReady && l.cliReady })
 		vrig.Settle(500 * time.Millisecond)
 		vsched.SetExploring(true)
+		for _, b := range before {
+			b(srv, mgr, l)
+		}
 		cause(srv, mgr, sock, link, l)
 		return func() vx.Result {
 			var r vx.Result
@@ -187,9 +190,9 @@ type sessWorld struct {
 // script of one polling session (Socket.IO over Engine.IO v4 long-polling, spoken by hand).
 func script() []step {
 	return []step{
-		{method: "GET"},                // handshake: OPEN
-		{method: "POST", body: "40"},   // CONNECT to "/"
-		{method: "GET"},                // CONNECT reply
+		{method: "GET"},              // handshake: OPEN
+		{method: "POST", body: "40"}, // CONNECT to "/"
+		{method: "GET"},              // CONNECT reply
 		{method: "POST", body: `42["e",1]`},
 		{method: "POST", body: `42["e",2]` + "\x1e" + `42["e",3]`},
 		{method: "GET", pre: func(w *sessWorld) { // two events from the server
@@ -197,7 +200,7 @@ func script() []step {
 			w.sock.Emit("s", "one")
 			w.sock.Emit("s", "two")
 		}},
-		{method: "GET"},              // blocks until the server's ping (virtual 2 s)
+		{method: "GET"},             // blocks until the server's ping (virtual 2 s)
 		{method: "POST", body: "3"}, // pong
 		{method: "POST", body: `451-["b",{"_placeholder":true,"num":0}]` + "\x1e" + "bAQID"},
 	}
